@@ -8,10 +8,10 @@ require (
 	github.com/IBM/TSS/mpc/binance/eddsa v0.0.0
 	github.com/IBM/TSS/mpc/bls v0.0.0
 	github.com/IBM/TSS/mpc/ps v0.0.0
+	github.com/IBM/mathlib v0.0.3-0.20230831091907-c532c4d3b65c
 )
 
 require (
-	github.com/IBM/mathlib v0.0.3-0.20230831091907-c532c4d3b65c // indirect
 	github.com/consensys/bavard v0.1.13 // indirect
 	github.com/consensys/gnark-crypto v0.9.1 // indirect
 	github.com/hyperledger/fabric-amcl v0.0.0-20230602173724-9e02669dceb2 // indirect
